@@ -134,9 +134,9 @@ def tla_unquote(s):
     return s.replace('\\"', '"').replace("\\\\", "\\")
 
 
-def gen_scenarios(wd, module, cfg, workers=None, timeout=600, simulate=None, heap="8g"):
+def gen_scenarios(wd, module, cfg, workers=None, timeout=600, simulate=None, heap="8g", extra=None):
     """Run a generator spec; returns (list of scenario dicts, tlc result)."""
-    r = tlc(wd, module, cfg, workers=workers or NCPU, timeout=timeout, simulate=simulate, heap=heap)
+    r = tlc(wd, module, cfg, workers=workers or NCPU, timeout=timeout, simulate=simulate, heap=heap, extra=extra)
     if r["rc"] not in (0,) and "Model checking completed" not in r["out"] and not simulate:
         tail = "\n".join(r["out"].splitlines()[-30:])
         raise Infra("scenario generation %s/%s failed (rc=%d):\n%s" % (module, cfg, r["rc"], tail))
